@@ -25,7 +25,17 @@ func HarnessC12() {
 		},
 		Required: []string{"second", "first"},
 	}
-	shape := zzvrt.Choice(zzvrt.Param("SHAPES", 3))
+	shape := zzvrt.Choice(zzvrt.Param("SHAPES", 4))
+	if shape == 3 {
+		// literals rendered through the dumper in both files: an array default with composite
+		// elements here, enumerations and scalar defaults there (rendering state must not
+		// travel from one output to the next, whichever is rendered first)
+		delete(root.Properties, "first")
+		delete(root.Properties, "third")
+		root.Properties["rules"] = &schemas.Type{Type: schemas.TypeList{"array"},
+			Default: []interface{}{"deny-all", map[string]interface{}{"allow": true, "match": "*.internal"}, []interface{}{"a", 1.0}}}
+		root.Properties["mode"] = &schemas.Type{Type: schemas.TypeList{"string"}, Enum: []interface{}{"on", "off"}, Default: "on"}
+	}
 	if shape == 2 {
 		// definition names that differ only in letter case (they map to the same Go name, so
 		// the order in which they are visited decides who gets the plain name)
@@ -36,7 +46,7 @@ func HarnessC12() {
 	}
 	cfg := Config{DefaultPackageName: "example.com/gen", DefaultOutputName: "root.go", Warner: func(string) {},
 		Tags: []string{"json", "yaml", "mapstructure"}}
-	if shape == 1 {
+	if shape == 1 || shape == 3 {
 		// two schema ids mapped to two output files, one referring to the other package
 		cfg.SchemaMappings = []SchemaMapping{
 			{SchemaID: "https://example.com/root", PackageName: "example.com/gen", OutputName: "root.go"},
@@ -53,10 +63,18 @@ func HarnessC12() {
 		zzvrt.Check("C12.generates", false)
 		return
 	}
-	if shape == 1 {
+	var sch2 *schemas.Schema
+	if shape == 1 || shape == 3 {
 		other := &schemas.Type{Type: schemas.TypeList{"object"}, Properties: map[string]*schemas.Type{
 			"k": {Type: schemas.TypeList{"boolean"}}, "j": {Type: schemas.TypeList{"integer"}}}}
-		sch2 := &schemas.Schema{ObjectAsType: (*schemas.ObjectAsType)(other), ID: "https://example.com/other"}
+		if shape == 3 {
+			delete(other.Properties, "k")
+			delete(other.Properties, "j")
+			other.Properties["level"] = &schemas.Type{Type: schemas.TypeList{"string"}, Enum: []interface{}{"low", "mid", "high"}}
+			other.Properties["codes"] = &schemas.Type{Type: schemas.TypeList{"array"}, Items: &schemas.Type{Type: schemas.TypeList{"integer"}}, Default: []interface{}{1.0, 2.0}}
+			other.Properties["mixed"] = &schemas.Type{Enum: []interface{}{"a", 1.0, true}}
+		}
+		sch2 = &schemas.Schema{ObjectAsType: (*schemas.ObjectAsType)(other), ID: "https://example.com/other"}
 		if err := g.addFile("other.json", sch2); err != nil {
 			zzvrt.Note(err.Error())
 			zzvrt.Check("C12.generates", false)
@@ -70,6 +88,46 @@ func HarnessC12() {
 		zzvrt.Emit(name, string(srcs[name]))
 	}
 	zzvrt.Emit("output-names", names)
-	zzvrt.Cover("shape:" + []string{"single-file", "two-files", "case-colliding-definitions"}[shape])
+	// nothing a run leaves behind in the process takes part: rendering the same generator
+	// again, and a fresh generator given the same input afterwards, give the same bytes
+	zzvrt.SchedulesDone()
+	again := g.Sources()
+	same := len(again) == len(srcs)
+	for _, name := range sortedKeys(again) {
+		same = same && zzSameText(string(again[name]), string(srcs[name]))
+		if !zzSameText(string(again[name]), string(srcs[name])) {
+			zzvrt.Emit("second-rendering-of-"+name, string(again[name]))
+		}
+	}
+	zzvrt.Check("C12.rendering-twice-gives-the-same-bytes", same)
+	if g2, err := New(cfg); err == nil && g2.addFile("root.json", sch) == nil && (sch2 == nil || g2.addFile("other.json", sch2) == nil) {
+		fresh := g2.Sources()
+		same = len(fresh) == len(srcs)
+		for _, name := range sortedKeys(fresh) {
+			same = same && zzSameText(string(fresh[name]), string(srcs[name]))
+			if !zzSameText(string(fresh[name]), string(srcs[name])) {
+				zzvrt.Emit("second-generation-of-"+name, string(fresh[name]))
+			}
+		}
+		zzvrt.Check("C12.a-second-generation-in-the-same-process-gives-the-same-bytes", same)
+	}
+	zzvrt.Cover("shape:" + []string{"single-file", "two-files", "case-colliding-definitions", "dumped-literals-in-two-files"}[shape])
 	zzvrt.Check("C12.generates", true)
+}
+
+// zzSameText compares two renderings; a symbolic number stands in the text as a numbered
+// placeholder and every rendering numbers its placeholders anew, so the numbers are left out.
+func zzSameText(a, b string) bool { return zzNoHoleNumbers(a) == zzNoHoleNumbers(b) }
+
+func zzNoHoleNumbers(s string) string {
+	out := make([]byte, 0, len(s))
+	for i := 0; i < len(s); i++ {
+		out = append(out, s[i])
+		if i >= 2 && s[i] == 'H' && s[i-1] == 'Z' && s[i-2] == 'Z' {
+			for i+1 < len(s) && s[i+1] >= '0' && s[i+1] <= '9' {
+				i++
+			}
+		}
+	}
+	return string(out)
 }
